@@ -38,10 +38,13 @@ func (tr *tracer) Start(
 		ctx = context.Background()
 	}
 
-	// For local spans created by this SDK, track child span count.
-	if p := trace.SpanFromContext(ctx); p != nil {
-		if sdkSpan, ok := p.(*recordingSpan); ok {
-			sdkSpan.addChild()
+	// For local spans created by this SDK, track child span count. A span
+	// started as a new root does not consider the span in ctx its parent.
+	if !config.NewRoot() {
+		if p := trace.SpanFromContext(ctx); p != nil {
+			if sdkSpan, ok := p.(*recordingSpan); ok {
+				sdkSpan.addChild()
+			}
 		}
 	}
 
